@@ -557,7 +557,11 @@ pub fn shard(ctx: &Ctx) -> Shard {
                         if let Some((sig, detail)) = out.violation {
                             let is_del = matches!(kind, Kind::DelActive | Kind::DelOnlyIfActive | Kind::DelClosed | Kind::DelNoActive);
                             let (sig, detail) = if is_del && out.dropped && sig.starts_with("further-ops/delete-count") {
-                                ("cancelled-delete-applied-to-a-subset-of-blobs".to_string(), format!("a later delete of the same key marks a different number of blobs than after a complete or absent delete ({})", detail))
+                                // the direction is part of the identity: on this tree the marker of the active blob is written
+                                // first, so a half-applied delete leaves closed blobs unmarked ("more" blobs marked later than
+                                // the not-applied model... or "fewer" than the applied one); another order of the steps would
+                                // show up under another signature
+                                (format!("cancelled-delete-applied-to-a-subset-of-blobs/{}", sig.rsplit('/').next().unwrap_or("")), format!("a later delete of the same key marks a different number of blobs than after a complete or absent delete ({})", detail))
                             } else {
                                 (sig, detail)
                             };
